@@ -8,6 +8,44 @@ use alpenglow::consensus::{Blockstore, BlockstoreEvent, BlockstoreImpl};
 use alpenglow::crypto::signature::{PublicKey, SecretKey};
 use alpenglow::shredder::{RegularShredder, ShredValidationError, Shredder, SliceCommitment, ValidatedShred};
 use alpenglow::types::{Slice, SliceIndex, Slot};
+use alpenglow::all2all::TrivialAll2All;
+use alpenglow::consensus::{Alpenglow, ConsensusMessage, EpochInfo, ValidatorEpochInfo};
+use alpenglow::crypto::aggsig;
+use alpenglow::disseminator::TrivialDisseminator;
+use alpenglow::network::{UdpNetwork, localhost_ip_sockaddr};
+use alpenglow::repair::{RepairRequest, RepairResponse};
+use alpenglow::shredder::Shred;
+use alpenglow::{Stake, Transaction, ValidatorIndex, ValidatorInfo};
+use std::sync::Arc;
+
+type Node = Alpenglow<TrivialAll2All<UdpNetwork<ConsensusMessage, ConsensusMessage>>, TrivialDisseminator<UdpNetwork<Shred, Shred>>, UdpNetwork<Transaction, Transaction>>;
+
+/// a real node (validator 0 of four; validator k holds signing key `sks[k]`), UDP sockets on localhost
+fn make_node(sks: &[SecretKey], rng: &mut Rng) -> (Node, EpochInfo) {
+    let a2a: UdpNetwork<ConsensusMessage, ConsensusMessage> = UdpNetwork::new_with_any_port();
+    let dis: UdpNetwork<Shred, Shred> = UdpNetwork::new_with_any_port();
+    let rq: UdpNetwork<RepairRequest, RepairResponse> = UdpNetwork::new_with_any_port();
+    let rp: UdpNetwork<RepairResponse, RepairRequest> = UdpNetwork::new_with_any_port();
+    let txs: UdpNetwork<Transaction, Transaction> = UdpNetwork::new_with_any_port();
+    let vsks: Vec<aggsig::SecretKey> = (0..sks.len()).map(|_| aggsig::SecretKey::new(rng)).collect();
+    let validators: Vec<ValidatorInfo> = (0..sks.len())
+        .map(|k| ValidatorInfo {
+            id: ValidatorIndex::new(k as u64),
+            stake: Stake::new(1),
+            pubkey: sks[k].to_pk(),
+            voting_pubkey: vsks[k].to_pk(),
+            // every address is the node's own (other validators do not exist; forwarded shreds come back to a socket nobody reads)
+            all2all_address: localhost_ip_sockaddr(a2a.port()),
+            disseminator_address: localhost_ip_sockaddr(dis.port()),
+            repair_requester_address: localhost_ip_sockaddr(rq.port()),
+            repair_responder_address: localhost_ip_sockaddr(rp.port()),
+        })
+        .collect();
+    let epoch = EpochInfo::new(validators.clone());
+    let vei = Arc::new(ValidatorEpochInfo::new(ValidatorIndex::new(0), epoch.clone()));
+    let node = Alpenglow::new(sks[0].clone(), vsks[0].clone(), TrivialAll2All::new(validators.clone(), a2a), TrivialDisseminator::new(validators, dis), rq, rp, vei, txs);
+    (node, epoch)
+}
 
 #[path = "../shredwire.rs"]
 mod shredwire;
@@ -347,7 +385,7 @@ fn main() {
     let mut rng = Rng::new(args.seed);
     let sks: Vec<SecretKey> = (0..4).map(|_| SecretKey::new(&mut rng)).collect();
     let pks: Vec<PublicKey> = sks.iter().map(|s| s.to_pk()).collect();
-    let rt = tokio::runtime::Builder::new_current_thread().build().expect("tokio runtime");
+    let rt = tokio::runtime::Builder::new_current_thread().enable_all().build().expect("tokio runtime");
     let mut cx = Ctx { rec: Recorder::new(), sks, pks, sets: vec![], junk: vec![], rt, bs: None, flagged: false, class: 0 };
 
     // ---- A: mutation stream on `try_new`
@@ -505,6 +543,80 @@ fn main() {
         cx.rec.oracle(!flagged, "honest-leader-flagged", || {
             format!("tag flip: 32 shreds of a correct leader's slice (slot {slot}, slice 1, regular shredder), all passing ValidatedShred::try_new, one of them (index {victim}) with its data/coding tag flipped on the wire by a relay: blockstore answered `{}` and emitted InvalidBlock (scenario {c})", outs.last().cloned().unwrap_or_default())
         });
+    }
+
+    // ---- D: the real node glue (`Alpenglow::handle_disseminator_shred`, single-stepped through a verif hook):
+    // shreds of a consistent block and invalid shreds never flag the leader; a conflicting signed slice does
+    let n_node = if args.thorough { 12 } else { 5 };
+    for c in 0..n_node {
+        cx.sets.clear();
+        cx.class = 0;
+        cx.rec.begin_case("node");
+        let (node, epoch) = {
+            let _g = cx.rt.enter();
+            make_node(&cx.sks, &mut rng)
+        };
+        // a slot led by somebody else
+        let mut slot = 1 + rng.below(1 << 20);
+        while epoch.leader(Slot::new(slot)).id == ValidatorIndex::new(0) {
+            slot += 1;
+        }
+        let leader = (0..4).find(|&k| epoch.leader(Slot::new(slot)).id == ValidatorIndex::new(k as u64)).expect("leader is one of the four");
+        let other_key = (1..4).find(|&k| k != leader).expect("another key");
+        let s1 = cx.mk(leader, slot, 1, false, None, rng.below(300) as usize, rng.below(256), rng.below(256));
+        let s2 = cx.mk(leader, slot, 2, false, None, rng.below(300) as usize, rng.below(256), rng.below(256));
+        let conflict = cx.mk(leader, slot, 1, false, None, 301 + rng.below(50) as usize, rng.below(256), rng.below(256));
+        let foreign = cx.mk(other_key, slot, 1, false, None, 400 + rng.below(50) as usize, rng.below(256), rng.below(256));
+        cx.rec.step("node_new", "ok");
+        let bs = node.verif_blockstore();
+        let feed = |cx: &mut Ctx, set: usize, i: usize, muts: &[Mut], rng: &mut Rng| {
+            let (w, _, _) = cx.mutate(set, i, muts, rng);
+            let ms = muts.iter().map(Mut::op).collect::<Vec<_>>().join(" ");
+            let op = format!("node {set} {i} {leader} {ms}").trim_end().to_string();
+            let out = match w.decode() {
+                None => "undecodable",
+                Some(sh) => {
+                    let r = catch(|| cx.rt.block_on(node.verif_handle_disseminator_shred(sh)));
+                    if matches!(r, Ok(Ok(()))) { "done" } else { "panic" }
+                }
+            };
+            cx.rec.step(&op, out);
+        };
+        let probe = |cx: &mut Ctx, set: usize, i: usize| -> String {
+            let v = cx.sets[set].shreds[i].clone();
+            let r = cx.rt.block_on(async { bs.write().await.add_shred_from_dissemination(v).await });
+            let out = match r {
+                Ok(_) => "pass".to_string(),
+                Err(e) => match format!("{e:?}").as_str() {
+                    "Duplicate" => "pass".to_string(),
+                    k => k.to_string(),
+                },
+            };
+            cx.rec.step(&format!("probe {set} {i}"), &out);
+            cx.class = fnv(cx.class, &out);
+            out
+        };
+        // honest + invalid phase (at least one shred of slice 1, so that the later conflict is a conflict)
+        feed(&mut cx, s1, 20 + rng.below(10) as usize, &[], &mut rng);
+        for _ in 0..(4 + rng.below(8)) {
+            let set = if rng.chance(1, 2) { s1 } else { s2 };
+            feed(&mut cx, set, rng.below(20) as usize, &[], &mut rng);
+        }
+        feed(&mut cx, s1, 21, &[Mut::SigJunk, Mut::Dat(0)], &mut rng);
+        feed(&mut cx, s1, 22, &[Mut::Slot(slot + 4)], &mut rng);
+        feed(&mut cx, foreign, 23, &[], &mut rng); // same slot / slice, signed by a key that is not the leader's
+        feed(&mut cx, s2, 24, &[Mut::Sidx(25)], &mut rng);
+        let p1 = probe(&mut cx, s2, 30);
+        cx.rec.oracle(p1 == "pass", "honest-leader-flagged", || format!("node case {c}: shreds of one consistent block and shreds with invalid signatures made the node flag the leader of slot {slot} (probe `{p1}`)"));
+        // the conflict: a second validly signed commitment for slice 1
+        let first_conflict_shred = rng.below(64) as usize;
+        feed(&mut cx, conflict, first_conflict_shred, &[], &mut rng);
+        let p2 = probe(&mut cx, s2, 31);
+        cx.rec.oracle(p2 == "InvalidShred", "conflicting-commitment-not-reported", || {
+            format!("node: Alpenglow::handle_disseminator_shred received shreds of slice 1 of slot {slot} from its leader (validator {leader}) and then shred {first_conflict_shred} of a different, validly signed slice 1 of the same slot; the leader was not flagged (a further shred of the slot is answered `{p2}` by the blockstore, no InvalidBlock)")
+        });
+        let class = cx.class;
+        cx.rec.end_case(class, true);
     }
 
     let extra = serde_json::json!({});
